@@ -95,8 +95,9 @@ St(k) ==
     /\ out' = "ok" /\ Log("st", <<k>>, "ok")
     /\ UNCHANGED <<amb, supp, objSet, decl, evw, primalGen, ruleGen, vgen>>
 
-\* what a formulation needs (ideal): an objective with its ambiguity set, a support for every scenario
-Formulable == objSet /\ \A s \in Scen : supp[s] # NoSet
+\* what a formulation needs (ideal): an objective with its ambiguity set, and a support for every scenario
+\* (supports are needed only once a row with random terms is in the model: the objective E(sum t) has none)
+Formulable == objSet /\ (AnySt => \A s \in Scen : supp[s] # NoSet)
 
 DeclSnapshot == [k \in CIds |-> IF st[k] THEN [evw |-> evw[k], sets |-> [s \in Scen |-> SetSeq(supp[s])]]
                                       ELSE [evw |-> FALSE, sets |-> <<>>]]
